@@ -1,4 +1,417 @@
+import H3.Lemmas.C06Run
+import H3.Lemmas.C06Ctl
+import H3.Props.C04
+import H3.Props.C05
+import H3.Props.C11Closed
+import H3.Props.C12
+import H3.Props.C14
 /-! # C06 — no peer behaviour makes h3 panic or leaves a call pending for ever
-    (theorems are assembled from the C02/C03/C04 machines; under construction) -/
+
+Property theorems only; vocabulary and proofs are in `H3/Lemmas/C06{Frame,Req,Run,Ctl}.lean`.
+The machines are the ones the other properties model and tie to the code: `H3.FS`
+(`FrameStream::{poll_next,poll_data}`; `Out.panic` = `assert!(remaining_data == 0)`, C02),
+`H3.ReqRecv` over `fsSrc` (`poll_recv_data`, `poll_recv_trailers`, `resolve_request`,
+`recv_response`, C03), `H3.UniAccept` + `H3.Control` (C04), `H3.Qpack`/`H3.PrefixInt`/
+`H3.PrefixString`/`H3.Huffman`/`H3.Headers` (C10, C11, C12, C15), `H3.ErrCell` (C05), `H3.WriteBuf`
+(C14).
+
+A *transport script* (`List FS.Ev`) is what the QUIC receive stream answers to successive reads:
+`chunk bytes | pend | fin | reset code`; an exhausted script answers `Pending`; "every
+fragmentation and every schedule of polls" = "every script".  Hypotheses that occur:
+`ScriptWF` — the chunks consist of bytes (`< 256`); `FS.ScriptOK` — chunks are non-empty (R-T);
+only the completion theorems need the latter.
+
+The *documented call pattern* of a request stream (both roles): `resolve_request` resp.
+`recv_response`; then `recv_data` until it answers `None`; then `recv_trailers`; a call that
+returns an error ends the pattern (no further call on the stream), a call that is `Pending` is
+polled again.  As a state machine: `Phase`, `pollPhase`, `nextPhase`. -/
 namespace H3.Props.C06
+open H3.C06 H3.ReqRecv H3.Gen.Consts
+open H3.Lemmas.C04 (ScriptWF hasEnd firstErr)
+open H3.FS (Ev ScriptOK)
+
+deriving instance DecidableEq for H3.FS.Out
+
+/-! ## 1. Request streams: the `assert!` of `poll_next` cannot fire -/
+
+/-- **No panic on a request stream — the model's drivers.**  Both roles, every classification of
+    header blocks (`H`), every transport script of bytes — arbitrary bytes, cut into arbitrary
+    chunks (empty ones included), `pend` anywhere, FIN / RESET anywhere, anything behind them:
+    * `documented … fsSrc …` (the driver the correspondence run executes: one poll per call, a
+      `Pending` call stays pending), for every loop bound, and `documentedChunks`;
+    * `runDoc` (every `Pending` retried while the script has events left), for every bound on
+      `poll_recv_data`'s loop and on the number of polls
+    never contain the panic outcome: no call of the documented pattern reaches `poll_next` with
+    `remaining_data ≠ 0`. -/
+theorem C06_no_panic_request_stream (role : Role) (H : Hdr) (script : List Ev) (hwf : ScriptWF script) :
+    (∀ fuel,
+      (documented role fsSrc H fuel { src := ({}, script) }).head ≠ .panic ∧
+      (∀ r ∈ (documented role fsSrc H fuel { src := ({}, script) }).body, r ≠ .panic) ∧
+      (documented role fsSrc H fuel { src := ({}, script) }).trailers ≠ some .panic) ∧
+    ((documentedChunks role H script).head ≠ .panic ∧
+      (∀ r ∈ (documentedChunks role H script).body, r ≠ .panic) ∧
+      (documentedChunks role H script).trailers ≠ some .panic) ∧
+    (∀ N k, ∀ e ∈ runDoc role H N k .head (initSt script), e.2 ≠ .panic) :=
+  ⟨fun fuel => documented_no_panic role H fuel _ (phaseOK_init script) (wfSt_init script hwf),
+   documented_no_panic role H _ _ (phaseOK_init script) (wfSt_init script hwf),
+   fun N k => runDoc_no_panic role H N k .head _ (phaseOK_init script) (wfSt_init script hwf)⟩
+
+/-- every header block decodes to a well-formed message / trailer section -/
+def okHdr : Hdr := ⟨fun _ => .ok, fun _ => .ok⟩
+
+/-- HEADERS(aa bb), DATA(2) cut in the length and in the payload, a grease frame, FIN; three
+    `Pending`s on the way -/
+def script₁ : List Ev :=
+  [.chunk [0x01, 0x02, 0xaa, 0xbb, 0x00], .pend, .chunk [0x02, 0xc1], .pend, .chunk [0xc2, 0x21], .chunk [0x00], .fin]
+
+-- non-vacuity: the pattern runs through all three phases; the one-poll driver stops at the first `pend`
+example : documentedPolled .server okHdr script₁ =
+    [(.head, .head [0xaa, 0xbb]), (.body, .data [0xc1]), (.body, .data [0xc2]), (.body, .end_),
+     (.trailers, .noTrailers)] := by decide +kernel
+example : documentedChunks .server okHdr script₁ =
+    { head := .head [0xaa, 0xbb], body := [.pending], env := {} } := by decide +kernel
+example : ScriptWF script₁ := by
+  intro b hb
+  simp only [script₁, List.mem_cons, Ev.chunk.injEq, reduceCtorEq, List.not_mem_nil, or_false, false_or] at hb
+  rcases hb with rfl | rfl | rfl | rfl <;> (intro x hx; simp at hx; omega)
+
+/-- **No panic on a request stream — every schedule, and the invariant.**  In every
+    configuration the documented pattern can reach (`DocReach`: calls in the documented order,
+    a `Pending` call polled again any number of times, further events arriving from the peer
+    between any two polls, any loop bound `N`):
+    * the invariant holds: before `resolve_request`/`recv_response` and before `recv_trailers`
+      `remaining_data = 0`; while `recv_data` is being called `remaining_data < 2^62` (the
+      length of a DATA frame is a varint), so `poll_data` cannot answer `None` with data
+      outstanding (db6b9f0 closed the other way to get there);
+    * the call the pattern makes next does not panic. -/
+theorem C06_no_panic_request_stream_every_schedule (role : Role) (H : Hdr) (N : Nat) (ph : Phase) (st : RSt)
+    (h : DocReach role H N ph st) :
+    PhaseOK ph st ∧ (pollPhase role H N ph st).1 ≠ .panic :=
+  ⟨(docReach_inv h).1, (pollPhase_safe role H N ph st (docReach_inv h).1 (docReach_inv h).2).noPanic⟩
+
+-- non-vacuity: a configuration in the middle of a body (one piece handed out, two bytes outstanding)
+example : DocReach .client okHdr 9 .body
+    (pollPhase .client okHdr 9 .body (pollPhase .client okHdr 9 .head
+      (initSt [.chunk [0x01, 0x01, 0xaa, 0x00, 0x03, 0xb1]])).2).2 :=
+  .poll (.poll (.init _ (by intro b hb; simp at hb; subst hb; intro x hx; simp at hx; omega))
+    (by decide +kernel)) (by decide +kernel)
+example : (pollPhase .client okHdr 9 .body (pollPhase .client okHdr 9 .head
+    (initSt [.chunk [0x01, 0x01, 0xaa, 0x00, 0x03, 0xb1]])).2).2.src.1.remaining = 2 := by decide +kernel
+
+/-- **Outside the documented pattern the model does say panic** (so the theorems above are not
+    vacuous in their hypothesis): HEADERS, DATA(4) with two payload bytes, FIN.  `recv_data`
+    fails with H3_FRAME_ERROR (the truncation, C02); calling `recv_trailers` *after that error*
+    reaches `poll_next` with `remaining_data = 4` and the `assert!` fires. -/
+theorem C06_panic_outside_pattern_witness :
+    (pollRecvData fsSrc 10 (pollHead .server fsSrc okHdr
+      (initSt [.chunk [0x01, 0x01, 0xaa, 0x00, 0x04, 0xb1, 0xb2], .fin])).2).1 = .errConn 262 ∧
+    (pollRecvTrailers fsSrc okHdr (pollRecvData fsSrc 10 (pollHead .server fsSrc okHdr
+      (initSt [.chunk [0x01, 0x01, 0xaa, 0x00, 0x04, 0xb1, 0xb2], .fin])).2).2).1 = .panic ∧
+    nextPhase .body (.errConn 262) = none := by decide +kernel
+
+/-! ## 2. Request streams: completion -/
+
+/-- **Completion on a request stream.**  Both roles, every `H`, every script of non-empty chunks
+    of bytes that contains the stream's `fin` or a `reset` (at any position, anything before and
+    behind it, `pend` anywhere): the documented pattern, every `Pending` retried, runs to its end —
+    every logged answer is a value or an error (`settled`: not `Pending`, not the loop-bound
+    artefact, not the panic outcome), and the last one ends the pattern (`nextPhase = none`: the
+    answer of `recv_trailers`, or an error). -/
+theorem C06_completion_request_stream (role : Role) (H : Hdr) (script : List Ev) (hwf : ScriptWF script)
+    (hok : ScriptOK script) (hend : Ev.fin ∈ script ∨ ∃ c, Ev.reset c ∈ script) :
+    (∀ e ∈ documentedPolled role H script, settled e.2 = true) ∧
+    ∃ pre last, documentedPolled role H script = pre ++ [last] ∧ nextPhase last.1 last.2 = none := by
+  have hmu : muS (initSt script) + 4 = fsFuel ({}, script) := by
+    simp only [muS, mu, initSt, fsFuel, scriptBytes_eq, FS.St.flat]
+    simp
+    omega
+  exact runDoc_complete role H _ _ .head (initSt script) (phaseOK_init script) (wfSt_init script hwf)
+    (frameDec_good_init script hok) (Or.inr hend) (by omega) (by simp only [rank]; omega)
+
+example : documentedPolled .client okHdr
+    [.chunk [0x01, 0x02, 0xaa, 0xbb, 0x00], .pend, .chunk [0x04, 0xc1], .reset 7] =
+    [(.head, .head [0xaa, 0xbb]), (.body, .errReset 7)] := by decide +kernel
+example : documentedPolled .client okHdr
+    [.chunk [0x01, 0x02, 0xaa, 0xbb, 0x00], .pend, .chunk [0x04, 0xc1], .fin] =
+    [(.head, .head [0xaa, 0xbb]), (.body, .errConn 262)] := by decide +kernel
+-- without the end of the stream in the script the pattern does stay pending (the hypothesis is needed)
+example : documentedPolled .server okHdr [.chunk [0x01, 0x02, 0xaa, 0xbb, 0x00], .pend, .chunk [0x04, 0xc1]] =
+    [(.head, .head [0xaa, 0xbb]), (.body, .data [0xc1]), (.body, .pending)] := by decide +kernel
+
+/-- **Nothing waits once the stream has ended — every schedule.**  In every configuration the
+    documented pattern can reach, once the transport has answered the end of the stream
+    (`eos`), or a reset is what it answers next (`AtEnd`): the call the pattern makes next does
+    not answer `Pending`, and if the pattern goes on the next configuration is again `AtEnd` — as
+    it also is when more events arrive.  (No assumption on the chunking.) -/
+theorem C06_completion_request_stream_every_schedule (role : Role) (H : Hdr) (N : Nat) (ph : Phase)
+    (st : RSt) (h : DocReach role H N ph st) (hE : AtEnd st.src) :
+    (pollPhase role H N ph st).1 ≠ .pending ∧
+    (∀ ph', nextPhase ph (pollPhase role H N ph st).1 = some ph' → AtEnd (pollPhase role H N ph st).2.src) ∧
+    (∀ evs, AtEnd (st.src.1, st.src.2 ++ evs)) :=
+  ⟨((pollPhase_safe role H N ph st (docReach_inv h).1 (docReach_inv h).2).atEnd hE).1,
+   ((pollPhase_safe role H N ph st (docReach_inv h).1 (docReach_inv h).2).atEnd hE).2,
+   fun evs => atEnd_arrive evs hE⟩
+
+example : AtEnd (pollPhase .server okHdr 9 .body
+    (pollPhase .server okHdr 9 .head (initSt [.chunk [0x01, 0x01, 0xaa], .fin])).2).2.src :=
+  Or.inl (by decide +kernel)
+example : AtEnd (initSt [.reset 5, .chunk [0x01]]).src := Or.inr ⟨5, _, rfl⟩
+
+/-! ## 3. Unidirectional streams: type resolution -/
+
+/-- **Unidirectional streams.**  For every transport script of bytes (any chunking, `pend`
+    anywhere, FIN or RESET anywhere), `poll_type` polled again while it answers `Pending`:
+    * never ends with H3_INTERNAL_ERROR ("Unexpected end parsing varint");
+    * is left waiting only if the script contains neither FIN nor RESET — a stream that ends
+      before its header is complete is dropped, which raises no connection error;
+    * when it resolves, neither `expect` of `into_stream` can fire. -/
+theorem C06_uni_streams (sc : List Ev) (hwf : ScriptWF sc) :
+    UniAccept.resolve (sc.length + 1) {} sc ≠ .internal ∧
+    (hasEnd sc = true → ∀ s, UniAccept.resolve (sc.length + 1) {} sc ≠ .waiting s) ∧
+    (∀ s r, UniAccept.resolve (sc.length + 1) {} sc = .resolved s r → UniAccept.intoStream s ≠ none) ∧
+    (∀ cfg c, (Control.acceptArrival cfg c .dropped).err = none) := by
+  have h := H3.Props.C04.C04_type_resolution sc hwf
+  refine ⟨?_, ?_, ?_, fun _ _ => rfl⟩
+  · intro hi
+    rw [hi] at h
+    cases hh : Spec.ControlRules.header (H3.Lemmas.C04.bytesOf sc) <;> rw [hh] at h <;> exact h
+  · intro he s hs
+    rw [hs] at h
+    cases hh : Spec.ControlRules.header (H3.Lemmas.C04.bytesOf sc) with
+    | complete ty id rest => rw [hh] at h; exact h
+    | incomplete =>
+      rw [hh] at h
+      simp only at h
+      rw [he] at h
+      cases h
+  · intro s r hs
+    rw [hs] at h
+    cases hh : Spec.ControlRules.header (H3.Lemmas.C04.bytesOf sc) with
+    | incomplete => rw [hh] at h; exact h.elim
+    | complete ty id rest =>
+      rw [hh] at h
+      simp only at h
+      obtain ⟨hty, hid, _⟩ := h
+      obtain ⟨k, hk, _⟩ := H3.Props.C04.C04_into_stream { role := .server } s ty hty
+        (fun hi => by rw [hid]; exact header_id _ ty id rest hh hi)
+      rw [hk]
+      simp
+
+example : UniAccept.resolve 4 {} [.chunk [0x01], .chunk [0x40], .reset 9] = .dropped := by decide +kernel
+example : UniAccept.intoStream { buf := [0xaa], ty := some 0x54, id := some 0x10000 } = some (.wtUni 0x10000) := by
+  decide
+
+/-! ## 4. The control stream -/
+
+/-- **The control stream.**  `ctlOuts k s script`: everything `FrameStream::poll_next` answers on
+    the control stream for a transport script, from a state `s` with no payload outstanding
+    (what `into_stream` builds), polled again after every frame without payload and after every
+    `Pending` while the script has events; `ctlIns` = the same answers as `poll_control` reads
+    them (`itemOf`).
+    * No answer is the panic outcome (or a data piece): `poll_control` only calls `poll_next`
+      with `remaining_data = 0` — for every script.
+    * If the script (non-empty chunks) contains the stream's FIN or a RESET, the answers end
+      with a terminal one — clean end, truncation, reset, protocol error, or a frame with a
+      payload (DATA / WebTransport) — and the control machine ends with a connection error
+      (`firstErr`), which is what the polled driver returns whatever the grease stream does
+      (`driveAll`, by `C04_first_error`): it does not stay pending.
+    * If no frame before the end raised an error (those errors are C04's), the error is
+      H3_CLOSED_CRITICAL_STREAM for a clean FIN and for a RESET, and H3_FRAME_ERROR — the code
+      of the overlapping rule — when FIN cuts a frame (R-04). -/
+theorem C06_control_stream (cfg : Control.Cfg) (c : Control.Conn) (hc : c.control = true) (hce : c.err = none)
+    (s : FS.St) (h0 : s.remaining = 0) (script : List Ev) (k : Nat) :
+    (∀ o ∈ ctlOuts k s script, o ≠ .panic ∧ ∀ d, o ≠ .data d) ∧
+    (Good FS.frameDec s script → Ends s script → mu s script < k →
+      ∃ pre last, ctlOuts k s script = pre ++ [last] ∧ terminalOut last ∧
+        (∃ e, firstErr cfg c (ctlIns k s script) = some e ∧
+          ∀ gs g, (Control.driveAll false cfg ((ctlIns k s script).length + 1) c gs (ctlIns k s script) g).2.1
+            = some e) ∧
+        (firstErr cfg c (pre.filterMap itemOf) = none →
+          ((last = .none ∨ ∃ q, last = .errQuic q) →
+            firstErr cfg c (ctlIns k s script) = some CODE_H3_CLOSED_CRITICAL_STREAM) ∧
+          (last = .errEnd → firstErr cfg c (ctlIns k s script) = some CODE_H3_FRAME_ERROR))) := by
+  refine ⟨?_, ?_⟩
+  · intro o ho
+    have := ctlOuts_no_panic k s script h0 o ho
+    cases o <;> first | exact this.elim | exact ⟨by simp, by simp⟩
+  · intro hG hE hk
+    obtain ⟨pre, last, h1, h2, h3⟩ := ctlOuts_complete k s script h0 hG hE hk
+    refine ⟨pre, last, h1, h2, ?_, ?_⟩
+    · obtain ⟨e, he⟩ := firstErr_of_terminal cfg last h2 pre c hc
+      have he' : firstErr cfg c (ctlIns k s script) = some e := by
+        unfold ctlIns; rw [h1]; exact he
+      refine ⟨e, he', fun gs g => ?_⟩
+      rw [H3.Props.C04.C04_first_error cfg c gs _ g hce]
+      exact he'
+    · intro hpre
+      have hsplit : ∀ x, itemOf last = some x →
+          firstErr cfg c (ctlIns k s script) = (Control.step cfg (after cfg c (pre.filterMap itemOf)) x).2.2 := by
+        intro x hx
+        unfold ctlIns
+        rw [h1, List.filterMap_append]
+        simp only [List.filterMap_cons, hx, List.filterMap_nil]
+        exact firstErr_append_none cfg _ c x hpre
+      have hctl := after_control cfg (pre.filterMap itemOf) c (filterMap_itemOf_not_uni pre) hc
+      obtain ⟨e1, e2, e3⟩ := step_stream_end cfg _ hctl
+      refine ⟨?_, ?_⟩
+      · rintro (rfl | ⟨q, rfl⟩)
+        · rw [hsplit _ rfl]; exact e1
+        · rw [hsplit _ rfl]; exact e2 q
+      · rintro rfl
+        rw [hsplit _ rfl]; exact e3
+
+-- non-vacuity: SETTINGS, GOAWAY(0) cut by a `Pending`, then FIN / RESET / FIN inside the frame
+example : ctlOuts 20 {} [.chunk [0x04, 0x00, 0x07], .pend, .chunk [0x01, 0x00], .fin] =
+    [.frame (.settings []), .pending, .frame (.goaway 0), .none] := by decide +kernel
+example : firstErr { role := .server } { control := true }
+    (ctlIns 20 {} [.chunk [0x04, 0x00, 0x07], .pend, .chunk [0x01, 0x00], .fin]) = some 0x0104 := by
+  decide +kernel
+example : firstErr { role := .client } { control := true }
+    (ctlIns 20 {} [.chunk [0x04, 0x00, 0x07], .pend, .chunk [0x01], .reset 3]) = some 0x0104 := by
+  decide +kernel
+example : firstErr { role := .server } { control := true }
+    (ctlIns 20 {} [.chunk [0x04, 0x00, 0x07], .pend, .chunk [0x01], .fin]) = some 0x0106 := by
+  decide +kernel
+-- a DATA frame on the control stream: the machine's error (H3_FRAME_UNEXPECTED) comes first
+example : firstErr { role := .server } { control := true }
+    (ctlIns 20 {} [.chunk [0x04, 0x00, 0x00, 0x02, 0xaa], .fin]) = some 0x0105 := by decide +kernel
+example : Good FS.frameDec {} [.chunk [0x04, 0x00, 0x07], .pend, .chunk [0x01, 0x00], .fin] :=
+  frameDec_good_init _ (by intro b hb; simp at hb; rcases hb with rfl | rfl <;> simp)
+-- the state `into_stream` builds when bytes behind the stream header were already buffered
+example : Good FS.frameDec { buf := if [0x04, 0x00] = [] then [] else [[0x04, 0x00]], eos := false } [.fin] :=
+  good_leftover FS.frameDec [0x04, 0x00] false [.fin] (by intro b hb; simp at hb)
+
+/-! ## 5. Field sections and messages -/
+
+/-- **Field sections.**  Decoding any byte string as a field section and turning any field list
+    into a message never panics:
+    * `decode_stateless` on every byte string and every limit answers with one of the code's own
+      `Ok`/`Err` values — the model's loop bound (`fuel`) is never reached (C10/C11);
+    * the server's answer to an oversized section (encoding and sending the 431) does not panic;
+    * `prefix_int::decode` with the prefix sizes 1..8 and `prefix_string::decode` with the sizes
+      2..9 (the callers pass constants in these ranges) never hit `assert!(size <= 8)`, the
+      `u8` shifts or `size - 1` — on every byte string (C15);
+    * the Huffman decoder never runs out of the model's bound (C15);
+    * `Header::try_from` + `into_request_parts` / `into_response_parts` / `into_fields` on every
+      field list return `Ok` or a `HeaderError`, never the panic outcome (C12, after 8fb18d1). -/
+theorem C06_field_sections :
+    (∀ (b : List Nat) (max : Nat), Qpack.decodeStateless b max ≠ .err .fuel) ∧
+    (∀ (mfs : Nat) (applied : Option Nat) (block : List Nat), Qpack.serverResolve mfs applied block ≠ .panic) ∧
+    (∀ (n : Nat) (bs : List Nat), 1 ≤ n → n ≤ 8 → Varint.WF bs →
+      PrefixInt.decode? n bs = some (PrefixInt.decode n bs)) ∧
+    (∀ (n : Nat) (bs : List Nat), 2 ≤ n → n ≤ 9 → Varint.WF bs →
+      PrefixString.decode? n bs = some (PrefixString.decode n bs)) ∧
+    (∀ b : List Nat, Varint.WF b → Huffman.hdecodeX b ≠ .error .fuel) ∧
+    (∀ (H : Headers.Http) (fs : List Headers.FieldLine),
+      Headers.recvRequest H fs ≠ .panic ∧ Headers.recvResponse H fs ≠ .panic ∧
+      Headers.recvTrailers H fs ≠ .panic) := by
+  refine ⟨fun b max => (H3.Props.C10.C10_recv_no_wrap b max).1, ?_, ?_, ?_, ?_, H3.Props.C12.C12_no_panic⟩
+  · intro mfs applied block
+    have h431 : Qpack.encodeStateless? Qpack.response431 =
+        some ([0, 0, 0x5f, 0x09, 0x83, 0x69, 0x90, 0xff], 42) := by decide +kernel
+    unfold Qpack.serverResolve
+    cases Qpack.recvSite .serverRequest mfs block with
+    | fields fs => simp
+    | connError c => simp
+    | tooBig n m st =>
+      simp only [Qpack.sendSite, h431]
+      by_cases hlim : 42 > Qpack.peerLimit applied <;> simp [hlim]
+  · intro n bs h1 h8 hwf
+    exact H3.Props.C15.C15_prefix_int_no_panic n h1 h8 bs hwf
+  · intro n bs h2 h9 hwf
+    have hi := H3.Props.C15.C15_prefix_int_no_panic (n - 1) (by omega) (by omega) bs hwf
+    have hsome : ∃ x, PrefixString.decode? n bs = some x := by
+      unfold PrefixString.decode?
+      rw [if_neg (by omega), hi]
+      cases PrefixInt.decode (n - 1) bs <;> exact ⟨_, rfl⟩
+    obtain ⟨x, hx⟩ := hsome
+    simp [PrefixString.decode, hx]
+  · intro b hb
+    exact (H3.Props.C15.C15_huffman_accepts_exactly_partial b hb []).2.2.2.2.2
+
+example : Qpack.decodeStateless [0, 0, 0x5f, 0x09, 0x81] 1000 = .err (.invalidString .unexpectedEnd) := by
+  decide +kernel
+example : Qpack.decodeStateless [0xff, 0xff, 0xff, 0xff, 0xff, 0xff, 0xff, 0xff, 0xff, 0xff, 0xff] 1000 =
+    .err (.invalidInteger .overflow) := by decide +kernel
+example : PrefixString.decode? 8 [0x82, 0xff] = some (.err .unexpectedEnd) := by decide +kernel
+
+/-! ## 6. Connection close -/
+
+/-- **When the connection has failed or was closed.**  What the models state (the *gap* to the
+    property text: in the models a closed connection reaches a stream read as the transport's
+    error answer, which `H3.FS` has as `reset`; that SimQuic/Quinn wake every task parked on a
+    stream when the peer closes or the connection times out is transport behaviour, observed by
+    the `adv` run, not modelled):
+    * `poll_control` with the connection error recorded returns it at once, whatever is queued
+      on the control stream, the unidirectional streams and the grease stream — and so does the
+      role's driver poll: neither is ever `Pending` again;
+    * the error cell (C05, the code after 57afec5): whatever the streams and the driver did, a
+      stored error — a peer close `quic (appClose code)` and a timeout `quic timeout` are such
+      errors — is never lost between tasks: a parked driver has been woken, and its next poll
+      returns the error (converted) however the stream handles' steps interleave;
+    * a request stream whose transport answers with an error next (`reset`): the call the
+      documented pattern makes completes — not `Pending`, not a panic — in every configuration
+      the pattern can reach; and once the cell holds an error every connection-level failure of
+      a call returns the stored one (first wins). -/
+theorem C06_connection_close_partial :
+    (∀ (blocking : Bool) (cfg : Control.Cfg) (c : Control.Conn) (gs : Control.Grease) (ins : List Control.In)
+        (g : List Control.GAns) (e : Nat), c.err = some e →
+      (Control.pollControl blocking cfg c gs ins g).res = .err e ∧
+      ∀ fuel, (Control.drivePoll blocking cfg (fuel + 1) c gs ins g).res = some e) ∧
+    (∀ (todo : List (List ErrCell.Err)) (sched : List ErrCell.TaskId) (e : ErrCell.Err),
+      let s := ErrCell.run true (ErrCell.init todo) sched
+      ErrCell.lostWakeup s = false ∧
+      (s.cell = some e → s.pc = .idle → ∀ mid₁ mid₂ : List Nat,
+        let s' := ErrCell.run true s
+          ([.drv .poll] ++ mid₁.map .str ++ [.drv .pce] ++ mid₂.map .str ++ [.drv .pce])
+        s'.handled = some (ErrCell.convert e) ∧ ∃ rest, s'.drets = ErrCell.convert e :: rest)) ∧
+    (∀ (role : Role) (H : Hdr) (N : Nat) (ph : Phase) (st : RSt), DocReach role H N ph st →
+      (∃ x r, st.src.2 = .reset x :: r) →
+      (pollPhase role H N ph st).1 ≠ .pending ∧ (pollPhase role H N ph st).1 ≠ .panic) ∧
+    (∀ (st : RSt) (c code : Nat), st.env.cell = some c → connErr st code = (.errConn c, st)) := by
+  refine ⟨?_, ?_, ?_, ?_⟩
+  · intro blocking cfg c gs ins g e he
+    have h1 : (Control.pollControl blocking cfg c gs ins g).res = .err e := by
+      cases ins <;> simp [Control.pollControl, he]
+    refine ⟨h1, fun fuel => ?_⟩
+    simp only [Control.drivePoll, h1]
+  · intro todo sched e
+    have h := H3.Props.C05.C05_no_lost_wakeup todo sched
+    simp only at h ⊢
+    refine ⟨h.1, fun hc hp mid₁ mid₂ => ?_⟩
+    obtain ⟨h1, _, _, h4⟩ := h.2.2.2 e hc hp mid₁ mid₂
+    exact ⟨h1, h4⟩
+  · intro role H N ph st h hr
+    have hS := pollPhase_safe role H N ph st (docReach_inv h).1 (docReach_inv h).2
+    exact ⟨(hS.atEnd (Or.inr hr)).1, hS.noPanic⟩
+  · intro st c code hc
+    simp [connErr, hc]
+
+example : (Control.pollControl false { role := .server } { control := true, err := some 0x0100 } {}
+    [.item (.frame (.settings []))] []).res = .err 0x0100 := by decide
+example : (pollPhase .server okHdr 9 .head (initSt [.reset 0x10c])).1 = .errReset 0x10c := by decide +kernel
+example : ErrCell.convert (.quic (.appClose 0x100)) = .remote (.appClose 0x100) ∧
+    ErrCell.convert (.quic .timeout) = .timeout := by decide
+
+/-! ## 7. The send side under the peer's flow control -/
+
+/-- **Writing.**  What the peer controls on the send side is how many bytes the transport takes
+    in each `poll_ready` (flow control; 0 = `Pending`; a STOP_SENDING ends the writing with the
+    transport's error, which the call returns).  For every well-formed `WriteBuf` — every `From`
+    conversion yields one (`C14_conversions`) — and every acceptance script, `stream::write`
+    does not panic: `advance` is never asked for more than is left (`Bytes::advance`,
+    `self.len - self.pos`, `buf[self.pos..self.len]`), and nothing is lost or written twice:
+    what went out followed by what is left is the original content. -/
+theorem C06_send_side (w : WriteBuf.WB) (hwf : w.WF) (script : List Nat) :
+    WriteBuf.write (some w) script ≠ .panic ∧
+    ∃ out w', w.drain script = some (out, w') ∧ w'.WF ∧ out ++ w'.view = w.view := by
+  obtain ⟨o, w', hd, hwf', hv⟩ := WriteBuf.drain_spec w hwf script
+  refine ⟨?_, o, w', hd, hwf', hv⟩
+  simp only [WriteBuf.write, hd]
+  split <;> simp
+
+example : (match WriteBuf.write (WriteBuf.fromFrame (.data [9, 8, 7])) [1, 0, 2, 1] with
+    | .pending out w => (out, w.view)
+    | _ => ([], [])) = ([0x00, 0x03, 9], [8, 7]) := by decide +kernel
+
 end H3.Props.C06
